@@ -1339,6 +1339,16 @@ func (ex *Exec) allocObligation(n *Term, signed bool, elem types.Type, pos token
 	}
 	n64 := ex.ext64(n, signed)
 	ex.allocEvents = append(ex.allocEvents, allocEvent{n64, ex.sizeof(elem), ex.posStr(pos), append([]*Term{}, ex.pc...)})
+	if lim := ex.w.cfg.AllocLimit; lim > 0 {
+		es := ex.sizeof(elem)
+		if es < 1 {
+			es = 1
+		}
+		// bounded effort: an undecided allocation bound is reported as undecided
+		ex.w.shortFallback = 6
+		defer func() { ex.w.shortFallback = 0 }()
+		ex.checkObligation(tb.Sle(n64, tb.Const(64, uint64(lim/es))), "alloc-bound", fmt.Sprintf("C09 a single allocation stays within %d MiB (512 MiB + 64 bytes per declared sample, at most 2^22 samples declared)", lim>>20), pos)
+	}
 	if ex.w.cfg.AllocCut > 0 {
 		cut := tb.Sle(n64, tb.Const(64, uint64(ex.w.cfg.AllocCut)))
 		if ex.feasible(cut) == Unsat {
